@@ -7,11 +7,16 @@ from harness import core, docgen, inputs, trees
 
 GEN = ['gen_tables']
 THEOREMS = ['C09_plain_lines', 'C09_span_verbatim', 'C09_html_block_verbatim', 'C09_blank_lines_kept', 'C09_definitions_in_place',
-            'C09_prefix_lines', 'C09_prefix_count']
+            'C09_prefix_lines', 'C09_prefix_count', 'C09_fragment_round_trip', 'C09_fragment_round_trip_hypotheses',
+            'C09_fragment_round_trip_needs_side_conditions']
 TRUSTED = ['Model/MarkdownRenderer.v: hand-written model of markdown_renderer.py, tied by X-md (the real renderer vs the extracted model on parsed trees)',
            'the document generator, the finding classifiers (oracle side)']
-ASSUMPTIONS = ['the three clauses of the property (same meaning, idempotent, exact on normal form) are decided by the oracle on the implementation; '
-               'what is proved is the renderer half (verbatim emission) for all token trees: PARTIAL',
+ASSUMPTIONS = ['unbounded theorem on the fragment of Spec/Fragment.v (one-line plain paragraphs, fenced code, quotes, single-item lists; any size and depth): '
+               'parse with the Markdown token sets then render without a line limit is the identity on the spelled text (C09_fragment_round_trip), hence same meaning, '
+               'fixed point and exact normal form there; its two side conditions (fence not empty, code lines not starting with white space) are necessary - the '
+               'statement is refuted without them by kernel evaluation - and are the recorded findings kf_md_empty_fence / kf_md_ws_line_in_code',
+               'beyond the fragment the three clauses of the property (same meaning, idempotent, exact on normal form) are decided by the oracle on the implementation; '
+               'what is proved there is the renderer half (verbatim emission) for all token trees: PARTIAL',
                'input classes recorded as findings are identified by classifiers on the input text / parsed tree; a failing input outside every '
                'class is a new violation']
 
@@ -102,6 +107,34 @@ def worker(args):
     return res
 
 
+def frag_rt_ok(t):
+    """rt_ok of Proofs/RoundTrip.v: no empty fence, no code line that begins (after spaces) with a white-space character"""
+    if t[0] == 'p':
+        return True
+    if t[0] == 'f':
+        return bool(t[2]) and all(l == '' or not l.lstrip(' ')[:1].isspace() for l in t[2])
+    return all(frag_rt_ok(k) for k in t[-1])
+
+
+def frag_worker(args):
+    """the trees of the fragment theorem (C09_fragment_round_trip) on the implementation: the round trip is the identity"""
+    from harness.props import c03
+    seed, depth = args
+    rng = random.Random(seed)
+    t = c03.frag_tree(rng, depth)
+    text = '\n'.join(c03.frag_spell(t)) + '\n'
+    if not frag_rt_ok(t):
+        return text, None, None
+    from mistletoe import Document
+    from mistletoe.markdown_renderer import MarkdownRenderer
+    try:
+        with MarkdownRenderer() as r:
+            md = r.render(Document(text))
+    except Exception as e:
+        return text, False, 'EXC %s: %s' % (type(e).__name__, e)
+    return text, md == text, md
+
+
 def run(ctx, only=None):
     ctx.cov['rule'] = ('the 652 spec examples and generated documents (every block and inline construct, canonical and non-canonical spellings) x '
                        'normalize_whitespace in {False, True}; non-trivial = the document has at least three lines; distinct = distinct (text, flag)')
@@ -143,6 +176,23 @@ def run(ctx, only=None):
         for (text, norm, md), m in zip(meta, mres):
             if core.dstr(m) != md:
                 ctx.disagreements.append({'interface': 'X-md', 'input': {'text': text, 'normalize_whitespace': norm}, 'model': core.dstr(m), 'impl': md})
+    # the fragment of the unbounded theorem, on the implementation
+    nf = 1500 if ctx.quick() else 40000
+    with mp.Pool(core.NPROC) as pool:
+        fres = pool.map(frag_worker, [(ctx.seed * 1000003 + i, 1 + i % 5) for i in range(nf)], chunksize=50)
+    skipped = 0
+    for text, ok, md in fres:
+        ctx.count('evaluations')
+        if ok is None:
+            skipped += 1
+            continue
+        if text.count('\n') >= 3:
+            nontriv.add((text, False))
+        if not ok:
+            ctx.failing.append({'interface': 'oracle', 'input': {'text': text, 'normalize_whitespace': False, 'source': 'fragment'},
+                                'what': 'a document of the fragment (C09_fragment_round_trip) is not reproduced byte for byte',
+                                'observed': md, 'expected': text, 'kf': None})
+    ctx.cov['fragment_stream'] = {'trees': nf, 'outside_rt_ok_skipped': skipped, 'max_depth': 5}
     ctx.count('distinct_nontrivial', len(nontriv))
     ctx.sample({'text': jobs[1400][0], 'normalize_whitespace': jobs[1400][1], 'markdown': res[1400].get('md')})
 
